@@ -313,6 +313,13 @@ class Monitor:
                     # integer time (the slot's buffer is keyed by integer time)
                     early = any(k[0] == s and k[1] == slot and lab[0] == L[0] and lab < L
                                 for k, lab in self.seen.items())
+                if not early:
+                    # the slot's buffer holds one value per integer time: another value of this connection that is
+                    # due at the same integer time (a different sub-step) was delivered in its place
+                    hw = [h for h in c.hist if h[2] == want]
+                    if hw:
+                        early = any(h2 is not hw[0] and h2[0][0] == hw[0][0][0] and (s, slot, h2[2]) in self.seen
+                                    for h2 in c.hist)
                 self.v(rule, f"{s}@{L}: slot {slot} is absent, expected {want!r}"
                        + (f" (this slot was already served at an earlier sub-step of time {L[0]})" if early else ""),
                        kind=c.kind, cache=self.cache, persistent=c.persistent, init=bool(c.init),
